@@ -182,7 +182,8 @@ def spec16 (ps : List Param) (o : Obs16) : Option String :=
       match findParam ps pr.name, Json.lookup pr.name entries, pr.value.num? with
       | some p, some s, some x =>
         (match p.bounds? with
-         | some b => x.isFinite && !b.contains x && validate s pr.value
+         -- `Bounds.sane`: bounds no number can meet (lower +inf/nan, upper -inf/nan) have no schema form
+         | some b => b.sane && x.isFinite && !b.contains x && validate s pr.value
          | none => false)
       | _, _, _ => false) with
   | some pr => some s!"parameter {pr.name}: out-of-bounds probe is accepted by the schema"
